@@ -200,6 +200,12 @@ def worker_main(argv):
       if env is not None:
         out['events'] += len(env.events)
     fin = check.finish(env, a.tier) or {}
+    for v in fin.pop('__violations__', []):
+      v = dict(v)
+      v.setdefault('case', -1)
+      v['witness'] = _jsonable(v.get('witness'))
+      v['facts'] = _jsonable(v.get('facts'))
+      out['violations'].append(v)
     for k, v in fin.items():
       out['extra'][k] = out['extra'].get(k, 0) + v
   except BaseException as e:  # crash => inconclusive, never a verdict
